@@ -160,7 +160,7 @@ func gen(t *rapid.T) Case {
 	// be a text-context use of it (the K-rederive zone, where sequential results are order dependent)
 	var names []string
 	for _, n := range all {
-		if !(len(n) == 2 && n[0] == 'h') {
+		if !(len(n) == 2 && n[0] == 'h') && !hist.NoDirect(n) && n != "rec" && n != "ry" && n != "rz" {
 			names = append(names, n)
 		}
 	}
